@@ -1,7 +1,7 @@
 """C04 - position hash is a pure function of the position."""
 from analysis.runner import rule
 from analysis.facts import AnchorError
-from analysis import terms as T, cfg
+from analysis import terms as T, cfg, k2
 from analysis import chessref as R
 from analysis.effects import upd_entries, xor_terms, strip_casts, subterms, index_chain, fields_read
 
@@ -218,8 +218,56 @@ def r2(ctx):
                 got[names[1]] = (idx, toggled)
         ok_ret = got == {"colors": (("param", 1, "a1"), True), "pieces": (("param", 2, "a2"), True)}
     ctx.ob("Board::xor bitboards", ok_ret, "Board::xor does not toggle colors[color] and pieces[piece] by `diff`", site=site, sample={"toggles": "colors[color] ^= diff; pieces[piece] ^= diff"})
+    folds = [(bi, t_) for bi, t_ in P.calls(key) if "Iterator>::fold::<" in t_["f"].get("fn_args", "")]
+    if not loops and len(folds) == 1:
+        # fold form: self.zobrist = diff.into_iter().fold(self.zobrist, |h, pos| h ^ KEY[color][pos][piece]) -- the closure is the per-square step
+        body_ = P.body(key)
+        ck = [k_ for k_ in P.fns if k_.startswith(key + "::{closure")]
+        caps = []
+        for blk in body_["blocks"]:
+            for s in blk["s"]:
+                r = s.get("r", {})
+                if r.get("k") == "agg" and r.get("ak") == "closure":
+                    caps = [k2.describe_operand(P, body_, o) for o in r["ops"]]
+        cap_place = []
+        for c_ in caps:
+            while isinstance(c_, tuple) and c_ and c_[0] == "ref":
+                c_ = c_[1]
+            cap_place.append(c_)
+        ok_fold = len(ck) == 1
+        if ok_fold:
+            clv = T.Engine(P).tabulate(ck[0])
+            cb = P.body(ck[0])
+            env, acc, pos_p = [("param", i, cb["locals"][i + 1]["n"]) for i in range(3)]
+            ok_fold = len(clv) == 1
+            for lf in clv:
+                ts = xor_terms(lf.ret)
+                keys = [key_triple(x) for x in ts if x != acc]
+                ok_fold &= acc in ts and len(ts) == 2 and len(keys) == 1 and keys[0] is not None
+                if ok_fold:
+                    c_, s_, p_ = keys[0]
+                    # colour and piece are captured parameters of Board::xor; the square is the folded item
+                    def cap_of(x):
+                        y = x
+                        while isinstance(y, tuple) and y and y[0] == "obj":
+                            y = y[1]
+                        if isinstance(y, tuple) and y and y[0] == "field" and y[1] in (env, ("obj", env)) and isinstance(y[2], int) and y[2] < len(cap_place):
+                            return cap_place[y[2]]
+                        return None
+                    ok_fold &= cap_of(c_) == ("place", "a1", ()) and cap_of(p_) == ("place", "a2", ()) and s_ == pos_p
+        # the fold runs over `diff`, starts from the old hash, and its result becomes the hash, unconditionally
+        final = [eng2.freeze(lf.state, lf.ext.get(slf, ("obj", slf))) for lf in rets]
+        for f_ in final:
+            zob = T.get_path(f_, (("f", 0, "zobrist", None),))
+            ok_fold &= (zob[0] == "app" and "Iterator>::fold::<" in zob[1] and len(zob[2]) == 3 and diff in subterms(zob[2][0])
+                        and zob[2][1] == ("field", ("obj", slf), "zobrist"))
+        ok_fold &= len(rets) == 1 and cfg.cfg_of(body_).postdominates(folds[0][0], 0)
+        ctx.ob("Board::xor hash", ok_fold, "Board::xor does not xor the piece key of (color, each square of diff, piece) into the hash (fold form)", site=site,
+               sample={"per-item": "hash ^ PIECE_ZOBRIST[color][pos in diff][piece]"})
+        ctx.ob("Board::xor loop unconditional", ok_fold, "the hash fold of Board::xor is conditional", site=site)
+        loops = None
     ok_loop = bool(loops)
-    for lf in loops:
+    for lf in (loops or []):
         final = eng2.freeze(lf.state, lf.ext.get(slf, ("obj", slf)))
         zob = T.get_path(final, (("f", 0, "zobrist", None),))
         ts = xor_terms(zob)
@@ -230,12 +278,13 @@ def r2(ctx):
             c, s, p = keys[0]
             good = c == ("param", 1, "a1") and p == ("param", 2, "a2") and diff in subterms(s) and any(x[0] == "app" and "BitBoardIter" in x[1] for x in subterms(s))
         ok_loop &= good
-    ctx.ob("Board::xor hash", ok_loop, "Board::xor does not xor the piece key of (color, each square of diff, piece) into the hash in its loop", site=site,
-           sample={"per-iteration": "zobrist ^= PIECE_ZOBRIST[color][pos in diff][piece]"})
-    # the loop runs unconditionally: its header post-dominates the entry
-    c = cfg.cfg_of(P.body(key))
-    hs = list(c.loops())
-    ctx.ob("Board::xor loop unconditional", len(hs) == 1 and c.postdominates(hs[0], 0), "the hash loop of Board::xor is conditional", site=site)
+    if loops is not None:
+        ctx.ob("Board::xor hash", ok_loop, "Board::xor does not xor the piece key of (color, each square of diff, piece) into the hash in its loop", site=site,
+               sample={"per-iteration": "zobrist ^= PIECE_ZOBRIST[color][pos in diff][piece]"})
+        # the loop runs unconditionally: its header post-dominates the entry
+        c = cfg.cfg_of(P.body(key))
+        hs = list(c.loops())
+        ctx.ob("Board::xor loop unconditional", len(hs) == 1 and c.postdominates(hs[0], 0), "the hash loop of Board::xor is conditional", site=site)
 
     # --- parse_fen: the placement loop
     key = P.find_fn("fen::parse_fen", "chess_movegen")
